@@ -271,9 +271,14 @@ class FieldsIO:
         field = np.asarray(field)
         assert field.dtype == self.dtype, f"expected {self.dtype} dtype, got {field.dtype}"
         assert field.size == self.nItems, f"expected {self.nItems} values, got {field.size}"
-        with open(self.fileName, "ab") as f:
+        # write right after the last complete record, so that a partial record left behind by an
+        # interrupted write is overwritten instead of misaligning everything appended after it
+        offset = int(self.hSize + self.nFields * (self.tSize + self.fSize))
+        with open(self.fileName, "r+b") as f:
+            f.seek(offset)
             np.array(time, dtype=T_DTYPE).tofile(f)
             field.tofile(f)
+            f.truncate()
 
     @property
     def nFields(self):
